@@ -60,12 +60,12 @@ func specProgram(p *telemetry.ProgramReport) bool {
 
 //@ contract Run
 //@   recovers-first
-//@   modifies heap
+//@   modifies heap, $fsops, $lockHeld, $markerAbsent, $reportExists, $contributed, $minsize
 
 //@ contract newUploader
 //@   ensures result1 == nil ==> uploaderOK(result0) && fresh(result0)
 //@   ensures result1 != nil ==> result0 == nil
-//@   modifies $fsops
+//@   modifies $fsops, $minsize
 
 //@ contract (*uploader).Close
 //@   requires u != nil
@@ -74,7 +74,7 @@ func specProgram(p *telemetry.ProgramReport) bool {
 //@ contract debugLogFile
 //@   at call ReadBuildInfo#1: after assume len(os.Args) >= 1
 //@   at call Fields#1: after assume len(result) >= 1
-//@   modifies nothing
+//@   modifies $fsops, $minsize
 
 // ---------------------------------------------------------------------------
 // C02 / C07 / C08: the run.
@@ -86,7 +86,7 @@ func specProgram(p *telemetry.ProgramReport) bool {
 //@   ensures uploaderOK(u)
 //@   ensures $mode == "off" ==> $fsops == old($fsops)
 //@   loop 1: invariant uploaderOK(u) && (len(ready) > 0 ==> $mode == "on") && ($mode == "off" ==> $fsops == old($fsops))
-//@   modifies u.cache.m, entries(u.cache.m), maps(string, int64), $fsops, $reportExists, $lockHeld, $markerAbsent
+//@   modifies u.cache.m, entries(u.cache.m), maps(string, int64), $fsops, $reportExists, $lockHeld, $markerAbsent, $contributed, $minsize
 
 // findWork only reads: nothing is created, changed or removed (it may create
 // the upload directory itself). A report name is put on the ready list only in
@@ -117,7 +117,7 @@ func specProgram(p *telemetry.ProgramReport) bool {
 //@   loop 2: invariant u.cache.m == old(u.cache.m) || fresh(u.cache.m)
 //@   loop 1: invariant uploaderOK(u) && todo != nil && $fsops == old($fsops) && (len(todo.readyfiles) > 0 ==> $mode == "on") && $mode != "off" && countFiles != nil && earliest != nil
 //@   loop 2: invariant uploaderOK(u) && todo != nil && (len(todo.readyfiles) > 0 ==> $mode == "on") && $mode != "off"
-//@   modifies todo.readyfiles, u.cache.m, entries(u.cache.m), maps(string, int64), $fsops, $reportExists, $contributed
+//@   modifies todo.readyfiles, u.cache.m, entries(u.cache.m), maps(string, int64), $fsops, $reportExists, $contributed, $minsize
 
 //@ contract latestReport
 //@   loop 1: invariant latest == "" || strings.HasSuffix(latest, ".json")
@@ -162,7 +162,7 @@ func specProgram(p *telemetry.ProgramReport) bool {
 
 //@ contract exclusiveWrite
 //@   requires $mode != "off"
-//@   modifies $fsops
+//@   modifies $fsops, $minsize
 
 //@ contract findProgReport
 //@   requires report != nil && meta != nil
@@ -232,13 +232,13 @@ func specProgram(p *telemetry.ProgramReport) bool {
 //@   at loop 3 end: assert forall k string :: in(k, x.Stacks) ==> x.Stacks[k] == p.Stacks[k]
 //@   at loop 3 end: assert len(upload.Programs) >= 1 && upload.Programs[len(upload.Programs)-1] == x
 //@   loop 3: invariant forall j int :: 0 <= j && j < len(upload.Programs) ==> upload.Programs[j] != nil && cfg.HasGoVersion(upload.Programs[j].GoVersion) && cfg.HasProgram(upload.Programs[j].Program) && cfg.HasVersion(upload.Programs[j].Program, upload.Programs[j].Version)
-//@   modifies u.cache.m, entries(u.cache.m), maps(string, int64), $fsops, $reportExists, $contributed
+//@   modifies u.cache.m, entries(u.cache.m), maps(string, int64), $fsops, $reportExists, $contributed, $minsize
 
 // uploadReport: a report dated in the future is not sent.
 //@ contract (*uploader).uploadReport
 //@   requires uploaderOK(u)
 //@   requires $mode == "on"
-//@   modifies $fsops, $lockHeld, $markerAbsent
+//@   modifies $fsops, $lockHeld, $markerAbsent, $minsize
 
 // uploadReportContents: lock before POST, marker re-checked under the lock,
 // disposal of the report exactly as the status dictates.
@@ -254,4 +254,4 @@ func specProgram(p *telemetry.ProgramReport) bool {
 //@   at call WriteFile#1: assert $lockHeld && $markerAbsent && resp.StatusCode == 200 && issub(arg1, buf, 0, len(buf))
 //@   at call Remove#4: assert $lockHeld && resp.StatusCode == 200
 //@   ensures result ==> $lockHeld && $markerAbsent
-//@   modifies $fsops, $lockHeld, $markerAbsent
+//@   modifies $fsops, $lockHeld, $markerAbsent, $minsize
